@@ -60,3 +60,24 @@ def final_game(F):
 def slot_required(e):
     """True when the Game field is built with `slot.ok_or(..)?` (the entry is mandatory)"""
     return e.get("k") == "Try" and strip(e["e"]).get("k") == "MethodCall" and strip(e["e"])["method"] in ("ok_or", "ok_or_else")
+
+
+SLOT_OF = {"start.raw": "start", "end.raw": "end", "gecko_codes.raw": "gecko_codes", "frames.arrow": "frames", "metadata.json": "metadata"}
+
+
+def optionality_rule(F, rep, only=None):
+    """an entry the writer emits conditionally must be optional in the reader"""
+    game = final_game(F)
+    n = 0
+    for e in writer_entries(F):
+        slot = SLOT_OF.get(e["name"])
+        if slot is None or (only and e["name"] not in only):
+            continue
+        n += 1
+        conditional = bool(e["guards"])
+        required = slot in game and slot_required(game[slot])
+        rep.ob("optional-entry", not (conditional and required), READ, e["name"],
+               "the writer emits %s only when %s, but the reader fails with an error when it is absent: a game for which the guard is false cannot be read back" % (
+                   e["name"], " and ".join(g[1] for g in e["guards"])),
+               sample={"entry": e["name"], "writer_conditional": conditional, "reader_required": required})
+    return n
